@@ -51,6 +51,13 @@ pub struct HistoryCase {
     /// instead of the serialization of `docs`, which stays the ground truth
     #[serde(default)]
     pub raw_texts: Option<Vec<String>>,
+    /// run every step of the history on a freshly spawned thread (the tree is moved between them)
+    #[serde(default)]
+    pub across_threads: bool,
+    /// feed a damaged copy of the first document through into_struct (result ignored) on the same
+    /// thread right before the history: state left behind by a failed call would show
+    #[serde(default)]
+    pub failed_parse_first: bool,
 }
 
 impl HistoryCase {
@@ -68,6 +75,8 @@ impl HistoryCase {
             surfaces: vec![Surface::plain(); n],
             kinds: vec![ReaderKind::Str],
             raw_texts: None,
+            across_threads: false,
+            failed_parse_first: false,
         }
     }
     pub fn texts(&self) -> Vec<String> {
@@ -104,7 +113,26 @@ pub enum ObsError {
 
 pub fn observe(case: &HistoryCase) -> Result<Obs, ObsError> {
     let texts = case.texts();
-    let tree = match guarded(|| real::run_history(&texts, &case.kinds, Cfg::default())) {
+    if case.failed_parse_first {
+        // a damaged copy of the first document: the end tag of the root is replaced, so the failure comes
+        // after children were recorded
+        let mut bad = texts[0].clone();
+        if let Some(p) = bad.rfind("</") {
+            bad.truncate(p);
+            bad.push_str("</mismatch>");
+        } else {
+            bad.push_str("<unclosed attr=>");
+        }
+        let _ = guarded(|| real::parse_bytes(bad.as_bytes(), ReaderKind::Slice, Cfg::default()).is_ok());
+    }
+    let run = || {
+        if case.across_threads {
+            real::run_history_across_threads(&texts, &case.kinds, Cfg::default())
+        } else {
+            real::run_history(&texts, &case.kinds, Cfg::default())
+        }
+    };
+    let tree = match guarded(run) {
         Ok(Ok(t)) => t,
         Ok(Err((i, e))) => return Err(ObsError::Parse(i, e)),
         Err(p) => return Err(ObsError::Panic(format!("parse/extend panicked: {}", p))),
@@ -184,7 +212,7 @@ pub fn random_case(seed: u64, label: &str, index: u64, mix: Mix) -> HistoryCase 
     let docs = gen::random_history(&mut r, &profile, &index.to_string());
     let surfaces = docs
         .iter()
-        .map(|_| if r.chance(1, 3) { Surface::plain() } else { Surface::seeded(r.next()) })
+        .map(|_| if r.chance(1, 3) { Surface::plain() } else { Surface::seeded_with_lead(r.next()) })
         .collect();
     let kinds = (0..docs.len()).map(|_| ReaderKind::random(&mut r)).collect();
     HistoryCase {
@@ -193,6 +221,8 @@ pub fn random_case(seed: u64, label: &str, index: u64, mix: Mix) -> HistoryCase 
         surfaces,
         kinds,
         raw_texts: None,
+        across_threads: index % 9 == 4,
+        failed_parse_first: index % 7 == 3,
     }
 }
 
